@@ -242,6 +242,63 @@ impl Uni<3> for Mix3 {
 	}
 }
 
+// ---- (RW, RW): a sharable tuple (tuple impls of read_guard / data_ref)
+pub type Tup2 = (RW, RW);
+impl Make<2> for Tup2 {
+	fn make(vals: [u8; 2]) -> Self {
+		(new_rw(0, vals[0]), new_rw(1, vals[1]))
+	}
+}
+impl Uni<2> for Tup2 {
+	fn states(&self) -> [&VState; 2] {
+		[rraw(&self.0), rraw(&self.1)]
+	}
+	fn is_mutex() -> [bool; 2] {
+		[false, false]
+	}
+	fn peek_vals(&self) -> [u8; 2] {
+		[peek_rw(&self.0), peek_rw(&self.1)]
+	}
+	fn guard_vals<'g>(g: &Self::Guard<'g>) -> [u8; 2]
+	where
+		Self: 'g,
+	{
+		[*g.0, *g.1]
+	}
+	fn guard_write<'g>(g: &mut Self::Guard<'g>, i: usize, v: u8)
+	where
+		Self: 'g,
+	{
+		if i == 0 { *g.0 = v } else { *g.1 = v }
+	}
+	fn data_vals<'a>(d: &Self::DataMut<'a>) -> [u8; 2]
+	where
+		Self: 'a,
+	{
+		[*d.0, *d.1]
+	}
+	fn data_write<'a>(d: &mut Self::DataMut<'a>, i: usize, v: u8)
+	where
+		Self: 'a,
+	{
+		if i == 0 { *d.0 = v } else { *d.1 = v }
+	}
+}
+impl UniS<2> for Tup2 {
+	fn rguard_vals<'g>(g: &Self::ReadGuard<'g>) -> [u8; 2]
+	where
+		Self: 'g,
+	{
+		[*g.0, *g.1]
+	}
+	fn dataref_vals<'a>(d: &Self::DataRef<'a>) -> [u8; 2]
+	where
+		Self: 'a,
+	{
+		[*d.0, *d.1]
+	}
+}
+
 // ---- Vec<RW> of length N, Box<[M]> of length N
 impl<const N: usize> Make<N> for Vec<RW> {
 	fn make(vals: [u8; N]) -> Self {
